@@ -124,7 +124,23 @@ def z_oracle(method, D, loaded, enabled, n=None, t=None, cmp=None, zero=None):
     return contributes, triggered, deg
 
 
-def make_method(fl, method, nsym, tsym, cmp):
+def make_method(fl, method, nsym, tsym, cmp, reconfigure=False):
+    if reconfigure:
+        # built with other parameters first, then reconfigured through its public attributes (as FLL-less code does)
+        if method in ("First", "Last"):
+            m = getattr(fl, method)(1, 0.5)
+            m.rules, m.threshold = nsym, tsym
+            return m
+        if method in ("Highest", "Lowest"):
+            m = getattr(fl, method)(1)
+            m.rules = nsym
+            return m
+        if method == "Threshold":
+            other = ">" if cmp != ">" else "<="
+            m = fl.Threshold(other, 0.5)
+            m.comparator = fl.Threshold.Comparator(cmp)
+            m.threshold = tsym
+            return m
     if method in ("General", "Proportional"):
         return getattr(fl, method)()
     if method in ("First", "Last"):
@@ -134,7 +150,7 @@ def make_method(fl, method, nsym, tsym, cmp):
     return fl.Threshold(cmp, tsym)
 
 
-def ob_method(method, N, loaded, enabled, cmp=None, rounds=1, zero_disabled=False, label="", mode="R"):
+def ob_method(method, N, loaded, enabled, cmp=None, rounds=1, zero_disabled=False, label="", mode="R", reconfigure=False):
     """mode "F": degrees and thresholds are IEEE doubles (bit-exact comparisons and subtractions): an ordering key that is
     only equivalent over the reals (e.g. 1 - d instead of -d) shows up here"""
     def run(ob):
@@ -158,6 +174,14 @@ def ob_method(method, N, loaded, enabled, cmp=None, rounds=1, zero_disabled=Fals
             ctor = {"General": "fl.General()", "Proportional": "fl.Proportional()", "First": f"fl.First({v['n']}, {lit(v['t'])})",
                     "Last": f"fl.Last({v['n']}, {lit(v['t'])})", "Highest": f"fl.Highest({v['n']})", "Lowest": f"fl.Lowest({v['n']})",
                     "Threshold": f"fl.Threshold({cmp!r}, {lit(v['t'])})"}[method]
+            if reconfigure:
+                ctor = {"First": f"fl.First(1, 0.5)", "Last": "fl.Last(1, 0.5)", "Highest": "fl.Highest(1)", "Lowest": "fl.Lowest(1)",
+                        "Threshold": f"fl.Threshold({('>' if cmp != '>' else '<=')!r}, 0.5)"}[method]
+                setters = {"First": f"rb.activation.rules = {v['n']}; rb.activation.threshold = {lit(v['t'])}", "Last": f"rb.activation.rules = {v['n']}; rb.activation.threshold = {lit(v['t'])}",
+                           "Highest": f"rb.activation.rules = {v['n']}", "Lowest": f"rb.activation.rules = {v['n']}",
+                           "Threshold": f"rb.activation.comparator = fl.Threshold.Comparator({cmp!r}); rb.activation.threshold = {lit(v['t'])}"}[method]
+            else:
+                setters = "pass"
             return "\n".join([PYREF, f"N = {N}; D = {lit(Dv)}; loaded = {list(loaded)!r}; enabled = {list(enabled)!r}",
                               "terms = [Fixed('t%d' % i, [D[r][i] for r in range(len(D))]) for i in range(N)]",
                               "X = fl.InputVariable('X', minimum=0, maximum=1, terms=terms); X.value = 0.5",
@@ -166,7 +190,7 @@ def ob_method(method, N, loaded, enabled, cmp=None, rounds=1, zero_disabled=Fals
                               "rules = [fl.Rule.create('if X is t%d then O is c%d' % (i, i), e if loaded[i] else None) for i in range(N)]",
                               "for i in range(N): rules[i].enabled = enabled[i]",
                               f"rb = fl.RuleBlock('rb', conjunction=fl.Minimum(), disjunction=fl.Maximum(), implication=fl.Minimum(), activation={ctor}, rules=rules)",
-                              "e.rule_blocks = [rb]; bad = None",
+                              "e.rule_blocks = [rb]; bad = None", setters,
                               "for r in range(len(D)):",
                               "    for tm in terms: tm.k = r",
                               "    O.fuzzy.clear(); rb.activate()",
@@ -200,7 +224,7 @@ def ob_method(method, N, loaded, enabled, cmp=None, rounds=1, zero_disabled=Fals
             for i in range(N):
                 rules[i].enabled = enabled[i]
             rb = fl.RuleBlock("rb", conjunction=fl.Minimum(), disjunction=fl.Maximum(), implication=fl.Minimum(),
-                              activation=make_method(fl, method, nsym, t, cmp), rules=rules)
+                              activation=make_method(fl, method, nsym, t, cmp, reconfigure), rules=rules)
             e.rule_blocks = [rb]
             out = []
             for r in range(rounds):
@@ -359,6 +383,9 @@ def obligations(tier, seed):
                 obs.append((nm, ob_method(method, N, (True,) * N, (True,) * N, cmp, rounds=2, label=nm)))
             nm = f"{tag}/batch"
             obs.append((nm, ob_batch(method, cmp, label=nm)))
+            if method not in ("General", "Proportional"):
+                nm = f"{tag}/N3/reconfigured"
+                obs.append((nm, ob_method(method, 3, (True,) * 3, (True,) * 3, cmp, label=nm, reconfigure=True)))
             # the same selection over IEEE doubles (comparison-only methods): ordering keys, thresholds and ties bit-exactly
             if method != "Proportional" and (method != "Threshold" or cmp in (">", ">=", "==")):
                 for N in ((2, 3) if tier == "quick" else (2, 3, 4)):
